@@ -134,8 +134,9 @@ func TestVerifReplayC11Exec(t *testing.T) {
 		t.Skip("no scenario")
 	}
 	var sc struct {
-		Args   []int64                `json:"args"`
-		Inputs map[string]interface{} `json:"inputs"`
+		Harness string                 `json:"harness"`
+		Args    []int64                `json:"args"`
+		Inputs  map[string]interface{} `json:"inputs"`
 	}
 	json.Unmarshal(data, &sc)
 	num := func(k string) int {
@@ -154,6 +155,11 @@ func TestVerifReplayC11Exec(t *testing.T) {
 		b := make([]byte, num(fmt.Sprintf("outlen.%d", k)))
 		for i := range b {
 			b[i] = byte(num(fmt.Sprintf("out.%d.%d", k, i)))
+		}
+		if sc.Harness == "VerifC11Ansi" {
+			b = []byte([]string{"p", "\x1b[32mq\x1b[0m", "r\n\x1b[1ms", "\x1b[31m"}[num(fmt.Sprintf("ansi-text.%d", k))%4])
+		}
+		for i := range b {
 			esc += fmt.Sprintf("\\%03o", b[i])
 		}
 		outs = append(outs, string(b))
@@ -180,6 +186,9 @@ func TestVerifReplayC11Exec(t *testing.T) {
 	}
 	r, _ := NewTaskRunner()
 	r.Stdout, r.Stderr = &strings.Builder{}, &strings.Builder{}
+	if sc.Harness == "VerifC11Ansi" {
+		r.OutputFormat = "prefixed"
+	}
 	perr := r.Run(p)
 	all := strings.Join(outs, "")
 	got := filepath.Join(dir, "consumer-saw")
